@@ -123,7 +123,7 @@ example : let l : Listing := { current := [1, 2], merged := [0] }
 
 theorem vacuum_facts :
     F.vacuumKeepsReachable = true ∧ F.vacuumRefusesDirty = true ∧ F.vacuumFinishesRetire = true ∧
-    F.vacuumKeepsListedCurrent = true ∧ F.vacuumRepointsSnapshot = true ∧ F.deletedNodesLeaveCache = true ∧
+    F.vacuumKeepsListedCurrent = true ∧ F.vacuumWalksBypassCache = true ∧ F.versionsDatedAtCommit = true ∧ F.vacuumRepointsSnapshot = true ∧ F.deletedNodesLeaveCache = true ∧
     F.vacuumOrder = ["removeTombstones", "commit", "deleteHistoric"] ∧
     F.deleteOrder = ["current aws.String(s.root.Prefix + l)",
       "nodes aws.String(s.persist.(*persistEncryptor).Prefix + l)",
